@@ -8,27 +8,39 @@ Observation points (all reachable from the harness, no repo edit):
     either a harness stub (returns a dict / {} / raises, per item) or the shipped digester;
   * `on_toxic` is a logger (optionally raising);
   * a logging.Handler on the module's logger records WARNING+ records per call;
-  * `lys._lock` is wrapped by rv.locks.DetectingLock (single-thread histories) or rv.sched.SchedLock.
+  * EVERY lock (threading.Lock / RLock, and Semaphore/BoundedSemaphore possibly used as a mutex) reachable from the instance - its own attributes, attributes of
+    operon_ai helper objects it owns, class attributes, globals of the lysosome module - is wrapped, whatever it is
+    called: FastDetectingLock (single-thread histories), rv.sched.SchedLock (controlled schedules: a lock-order
+    deadlock is "no runnable thread", a logical verdict) or GraphDetectingLock (free-running stress: wait-for-graph
+    cycle; semaphores have no owner and stay unwrapped there). New lock attributes appearing later are picked up at the
+    start of every call. Class-/module-level primitives are replaced by a fresh one per rig and restored by close().
+
+Items are keyed by INGESTION (one Item per call of Lysosome.ingest, in order), grouped by the identity of the Waste
+object: equal-but-distinct wastes are different groups, the same object ingested k times is one group of k items.
 
 Reference model (written from the property statement): every item is at all times exactly one of
 queued (once), processed by exactly one digester invocation (ok -> counted in total_digested; raised
 in a digest() call -> listed in that DigestResult.errors; raised in the auto-digest of an ingest ->
 reported (log record / returned result); raised in the emergency digest -> emergency-dropped), or
-expired by autophagy (counted in its return value, and really past retention).
+expired by autophagy (counted in its return value, and really past retention). For a group of k ingestions of one
+object the same rule is applied by count: occurrences queued + digester invocations + expired == k.
 """
 from __future__ import annotations
 
+import copy
 import logging
 import sys
 import threading
 from datetime import datetime as _real_datetime
 
+from rv import sched as _sched
 from rv.locks import DetectingLock, WouldHang
 
 TYPES = ["MISFOLDED_PROTEIN", "EXPIRED_CACHE", "FAILED_OPERATION", "ORPHANED_RESOURCE", "TOXIC_BYPRODUCT"]
 TOXIC = 4
 MARK = "TOXICMARK"
-INGEST_KINDS = ("ingest", "ingest_error", "ingest_sensitive", "prune")
+INGEST_KINDS = ("ingest", "ingest_error", "ingest_sensitive", "prune", "ingest_twin", "ingest_same", "ingest_error_rep", "ingest_sensitive_rep")
+LOCK_TYPES = tuple({type(threading.Lock()), type(threading.RLock())} | ({threading._PyRLock} if hasattr(threading, "_PyRLock") else set()))
 EXPIRY_MARGIN_S = 120.0
 LOGGER_NAME = "operon_ai.organelles.lysosome"
 
@@ -92,6 +104,204 @@ class FastDetectingLock(DetectingLock):
         return ok
 
 
+class LockGraph:
+    """wait-for graph shared by the GraphDetectingLocks of one rig (free-running threads)"""
+
+    def __init__(self):
+        self.mutex = threading.Lock()
+        self.waiting = {}       # thread ident -> GraphDetectingLock it is blocked on (untimed blocking acquire only)
+
+    def cycle_through(self, me):
+        """caller holds mutex. Follows me -> lock I wait for -> its owner -> lock the owner waits for ... and returns the
+        chain if it comes back to `me`. `owner == t` is only ever recorded between t's successful acquire and the start of
+        t's release, and a thread registered in `waiting` is inside an untimed acquire (so it is not releasing anything):
+        a closed chain is a set of threads none of which can ever proceed."""
+        chain = []
+        t = me
+        for _ in range(64):
+            l = self.waiting.get(t)
+            if l is None or l.owner is None:
+                return None
+            chain.append((t, l.name, l.owner))
+            if l.owner == me:
+                return chain
+            t = l.owner
+        return None
+
+
+class GraphDetectingLock(DetectingLock):
+    """DetectingLock for several locks and free-running threads: besides the self re-acquisition rule, an untimed
+    blocking acquire that closes a cycle in the wait-for graph raises WouldHang (zero-time, logical)."""
+    POLL_S = 0.02
+
+    def __init__(self, inner, name, graph):
+        DetectingLock.__init__(self, inner, name)
+        self.graph = graph
+
+    def _got(self, me):
+        with self.graph.mutex:
+            if self.owner == me:
+                self.reentrant_acquisitions += 1
+            else:
+                self.owner_stack = _light_stack()
+            self.owner = me
+            self.depth += 1
+            self.acquisitions += 1
+
+    def _check(self, me):
+        g = self.graph
+        with g.mutex:
+            ch = g.cycle_through(me)
+            if ch is None:
+                return
+            g.waiting.pop(me, None)
+            first = self.owner_stack
+        names = [c[1] for c in ch]
+        e = WouldHang(" -> ".join("thread waits for %s" % n for n in names) if len(ch) > 1 else self.name, first, _light_stack())
+        e.cycle = names
+        raise e
+
+    def acquire(self, blocking=True, timeout=-1):
+        me = threading.get_ident()
+        if self.inner.acquire(False):
+            self._got(me)
+            return True
+        if not blocking:
+            return False
+        if timeout is not None and timeout >= 0:
+            ok = self.inner.acquire(True, timeout)
+            if ok:
+                self._got(me)
+            return ok
+        with self.graph.mutex:
+            self.graph.waiting[me] = self
+        try:
+            while True:
+                self._check(me)
+                if self.inner.acquire(True, self.POLL_S):
+                    break
+        finally:
+            with self.graph.mutex:
+                self.graph.waiting.pop(me, None)
+        self._got(me)
+        return True
+
+    def release(self):
+        with self.graph.mutex:
+            self.depth -= 1
+            if self.depth == 0:
+                self.owner = None
+        self.inner.release()
+
+
+class NoLock:
+    """placeholder when the object under test owns no lock at all"""
+    name, depth, acquisitions, reentrant_acquisitions, owner = "none", 0, 0, 0, None
+
+    def locked(self):
+        return False
+
+
+def _is_raw_lock(v):
+    """a raw mutual-exclusion primitive: Lock / RLock, or a Semaphore (possibly used as a mutex)"""
+    return type(v) in LOCK_TYPES or isinstance(v, threading.Semaphore)
+
+
+def _fresh_like(raw):
+    """a new, free primitive of the same kind (taken at a quiescent point: a semaphore's current value is its free count)"""
+    if isinstance(raw, threading.BoundedSemaphore):
+        return threading.BoundedSemaphore(getattr(raw, "_initial_value", raw._value))
+    if isinstance(raw, threading.Semaphore):
+        return threading.Semaphore(raw._value)
+    return threading.Lock() if type(raw) is type(threading.Lock()) else threading.RLock()
+
+
+def is_semaphore(v):
+    return isinstance(v, threading.Semaphore)
+
+
+class SchedSemaphore(_sched.SchedLock):
+    """rv.sched.SchedLock for a Semaphore: no owner, so a failed acquire never is a verdict by itself (another thread may
+    release it); the thread blocks and the scheduler's "no runnable thread" rule decides. A timed acquire that cannot
+    succeed now returns False (the holder may be arbitrarily slow)."""
+
+    def acquire(self, blocking=True, timeout=None):
+        s = _sched._ACTIVE
+        me = s.index.get(threading.get_ident()) if s is not None else None
+        if me is None:
+            ok = self.inner.acquire(blocking, timeout)
+            if ok:
+                self.owner, self.depth = "ext", self.depth + 1
+            return ok
+        s.yield_point(me, "acquire:" + self.name, 0)
+        while True:
+            if self.inner.acquire(False):
+                self.owner = me
+                self.depth += 1
+                self.acquisitions += 1
+                s.lock_order.append((me, self.name))
+                return True
+            if not blocking or (timeout is not None and timeout >= 0):
+                return False
+            s.block_on(me, self)
+
+    def release(self, n=1):
+        for _ in range(n):
+            _sched.SchedLock.release(self)
+
+
+class SoloSemaphore(FastDetectingLock):
+    """single-thread histories only: nobody else can release, so a failed untimed blocking acquire can never return"""
+
+    def acquire(self, blocking=True, timeout=None):
+        if self.inner.acquire(False):
+            if self.depth == 0:
+                self.owner_stack = _light_stack()
+            self.owner = threading.get_ident()
+            self.depth += 1
+            self.acquisitions += 1
+            return True
+        if not blocking or (timeout is not None and timeout >= 0):
+            return False
+        raise WouldHang(self.name, self.owner_stack, _light_stack())
+
+    def release(self, n=1):
+        for _ in range(n):
+            FastDetectingLock.release(self)
+
+
+_static_cache = {}      # class / module -> (number of names when scanned, names that held a raw lock)
+
+
+def _static_names(holder):
+    d = vars(holder)
+    hit = _static_cache.get(holder)
+    if hit is None or hit[0] != len(d):
+        hit = _static_cache[holder] = (len(d), [k for k, v in list(d.items()) if _is_raw_lock(v)])
+    return hit[1]
+
+
+def lock_slots(obj, module, prefix="Lysosome"):
+    """(holder, attribute, display name) of every raw Lock/RLock reachable from `obj`: instance attributes, attributes of
+    helper objects (instances of operon_ai classes) it owns, class attributes along the MRO, globals of `module`."""
+    out = []
+    for k, v in list(vars(obj).items()):
+        tv = type(v)
+        if tv in LOCK_TYPES or isinstance(v, threading.Semaphore):
+            out.append((obj, k, "%s.%s" % (prefix, k)))
+        elif tv.__module__.startswith("operon_ai") and hasattr(v, "__dict__") and not isinstance(v, type):
+            for k2, v2 in list(vars(v).items()):
+                if _is_raw_lock(v2):
+                    out.append((v, k2, "%s.%s.%s" % (prefix, k, k2)))
+    for klass in type(obj).__mro__[:-1]:
+        for k in _static_names(klass):
+            out.append((klass, k, "%s.%s(class)" % (klass.__name__, k)))
+    if module is not None:
+        for k in _static_names(module):
+            out.append((module, k, "%s.%s" % (module.__name__.rsplit(".", 1)[-1], k)))
+    return out
+
+
 class Resource:
     """content of ORPHANED_RESOURCE items (the shipped digester calls cleanup())"""
 
@@ -126,8 +336,8 @@ class Item:
 
 
 class Rig:
-    def __init__(self, cfg, clock, lock_wrapper, cls=None, threaded=False):
-        """cfg: {"max": int, "th": int, "ret_h": float, "mode": "stub"|"shipped"}"""
+    def __init__(self, cfg, clock, lock_factory, cls=None, threaded=False):
+        """cfg: {"max": int, "th": int, "ret_h": float, "mode": "stub"|"shipped"}; lock_factory(inner, name) -> wrapper"""
         from operon_ai.organelles import lysosome as lmod
         _install_handler()
         self.lmod = lmod
@@ -139,16 +349,22 @@ class Rig:
         self.lys = lys = cls(max_queue_size=cfg["max"], auto_digest_threshold=cfg["th"], retention_hours=cfg["ret_h"],
                              on_toxic=self._on_toxic, silent=True)
         self.retention_s = cfg["ret_h"] * 3600.0
-        self.inner_lock = lys._lock
-        self.lock = lys._lock = lock_wrapper(lys._lock)
+        self._alloc = threading.Lock()
+        self.stats = {}
+        self.unwrapped = set()
+        self.slots = []          # [holder, attr, name, wrapped primitive, wrapper, original class/module-level primitive or None]
+        self.locks = []
+        self.lock = NoLock()
+        self.lock_factory = lock_factory
+        self.wrap_locks()
         self.items = []
-        self.by_obj = {}
+        self.by_obj = {}         # id(waste object) -> [Item per ingestion of that object, in order]
+        self.wastes = []         # every Waste object that entered, in ingestion order (twin / same-object operations pick from it)
         self.cur = {}
+        self.inprog = {}         # thread ident -> Item whose digester invocation is running in that thread
         self.problems = []      # (mechanism, what)
         self.trace = []
-        self.stats = {}
         self.autophagy_unattributed = 0     # removals reported by autophagy calls whose before/after queue was not observable (thread mode)
-        self._alloc = threading.Lock()
         self.last_ctx = None
         self.daemon = None
         self.reached = set()    # "auto", "emergency", ...
@@ -159,6 +375,75 @@ class Rig:
             lys._digesters[wt] = self._make_digester(shipped, use_stub)
         self._real_ingest = lys.ingest          # bound method of the (possibly contract-wrapped) class
         lys.ingest = self._ingest_recorder
+
+    # ------------------------------------------------------------------ locks
+    def wrap_locks(self, extra=()):
+        """wrap every raw lock reachable from the instance (and from `extra` helper objects) that is not wrapped yet"""
+        found = lock_slots(self.lys, self.lmod)
+        for o in extra:
+            found += lock_slots(o, None, type(o).__name__)
+        if not found:
+            return
+        with self._alloc:
+            for holder, attr, name in found:
+                raw = getattr(holder, attr, None)
+                if not _is_raw_lock(raw):
+                    continue
+                original = None
+                if holder is not self.lys and (isinstance(holder, type) or holder is self.lmod):
+                    # a class-level / module-level lock outlives the instance: give every rig a fresh primitive of the same kind, so
+                    # that a lock still held by an abandoned schedule (deadlock verdict, unwinding threads) cannot leak into later cases
+                    original, raw = raw, _fresh_like(raw)
+                w = self.lock_factory(raw, name)
+                if w is None:           # this factory has no sound wrapper for that primitive
+                    if (id(holder), attr) not in self.unwrapped:
+                        self.unwrapped.add((id(holder), attr))
+                        self._bump("lock_like_left_unwrapped")
+                    continue
+                setattr(holder, attr, w)
+                self.slots.append([holder, attr, name, raw, w, original])
+                self.locks.append(w)
+                if attr == "_lock" and holder is self.lys or isinstance(self.lock, NoLock):
+                    self.lock = w
+
+    def rewrap(self, lock_factory):
+        """replace every wrapper by lock_factory(raw, name) (all locks must be free)"""
+        self.lock_factory = lock_factory
+        self.locks = []
+        for slot in self.slots:
+            holder, attr, name, raw, old, _orig = slot
+            w = lock_factory(raw, name)
+            if w is None:
+                setattr(holder, attr, raw)
+                slot[4] = raw
+                self._bump("lock_like_left_unwrapped")
+                continue
+            setattr(holder, attr, w)
+            slot[4] = w
+            self.locks.append(w)
+            if old is self.lock:
+                self.lock = w
+
+    def close(self):
+        """put class-level / module-level raw locks back"""
+        for holder, attr, name, raw, w, original in self.slots:
+            if original is not None:
+                setattr(holder, attr, original)
+
+    def any_locked(self):
+        return any(l.depth > 0 for l in self.locks)
+
+    def lock_acquisitions(self):
+        return sum(l.acquisitions for l in self.locks)
+
+    def _rescan(self):
+        if self.unwrapped:
+            return
+        for v in vars(self.lys).values():
+            if type(v) in LOCK_TYPES or isinstance(v, threading.Semaphore):
+                self.wrap_locks()
+                self._bump("late_locks_wrapped")
+                return
 
     # ------------------------------------------------------------------ observers
     def _bump(self, k, n=1):
@@ -186,14 +471,18 @@ class Rig:
                 self.items.append(None)
             if c is not None:
                 c["extra_ingests"] = c.get("extra_ingests", 0) + 1
-        if id(waste) in self.by_obj:
-            self.problem("same-waste-object-ingested-twice", "harness error: waste object re-ingested")
         item = Item(vid, waste, c["kind"] if c else "?", c["behav"] if c else "d", c["tid"] if c else -1)
         self.items[vid] = item
-        self.by_obj[id(waste)] = item
+        with self._alloc:
+            grp = self.by_obj.setdefault(id(waste), [])
+            grp.append(item)
+            self.wastes.append(waste)
+        if len(grp) > 1:
+            self._bump("same_object_reingested")
         if c is not None:
             c["item"] = item
             c["qlen_at_ingest"] = len(self.lys._queue)
+            c["same_in_queue_at_ingest"] = sum(1 for x in self.lys._queue if x is waste)
         return self._real_ingest(waste)
 
     def _path(self, c, waste):
@@ -208,6 +497,15 @@ class Rig:
             if it is None:
                 return "emergency"
             w = it.waste
+            if c.get("same_in_queue_at_ingest"):
+                # the object being ingested was already queued: identity cannot tell the old occurrence from the new one;
+                # the auto-digest is the path that goes through the public digest() method
+                f = sys._getframe(2)
+                while f is not None:
+                    if f.f_code.co_name == "digest" and f.f_code.co_filename.endswith("lysosome.py"):
+                        return "auto"
+                    f = f.f_back
+                return "emergency"
             if waste is w or it.log or any(x is w for x in self.lys._queue):
                 return "auto"
             return "emergency"
@@ -216,16 +514,26 @@ class Rig:
     def _make_digester(self, shipped, use_stub):
         def digester(waste):
             c = self._ctx()
-            item = self.by_obj.get(id(waste))
             path = self._path(c, waste)
             self._bump("digester_calls:" + path)
-            if item is None:
+            entry = [path, "?"]
+            grp = self.by_obj.get(id(waste))
+            if grp is not None and len(grp) > 1:
+                with self._alloc:
+                    item = next((it for it in grp if not it.log and not it.expired), grp[-1])
+                    item.log.append(entry)
+                self._bump("digester_calls_on_reingested_object")
+            elif grp:
+                item = grp[0]
+                item.log.append(entry)
+            else:
                 self.problem("digester-saw-unregistered-object", "a digester was invoked with an object that never entered through ingest")
                 return shipped(waste)
-            entry = [path, "?"]
-            item.log.append(entry)
             if c is not None:
                 c["events"].append(("dig", item.vid, entry))
+            me = threading.get_ident()
+            outer = self.inprog.get(me)
+            self.inprog[me] = item
             try:
                 if use_stub:
                     if item.behav == "r":
@@ -237,16 +545,23 @@ class Rig:
                 entry[1] = "raise"
                 self._bump("digester_raises:" + path)
                 raise
+            finally:
+                self.inprog[me] = outer
             entry[1] = "ok"
             return res
         return digester
 
     def _on_toxic(self, waste):
-        item = self.by_obj.get(id(waste))
+        grp = self.by_obj.get(id(waste))
         self._bump("toxic_callbacks")
-        if item is None:
+        if not grp:
             self.problem("digester-saw-unregistered-object", "on_toxic called with an object that never entered through ingest")
             return
+        item = grp[0]
+        if len(grp) > 1:
+            # attribute the callback to the ingestion whose digester invocation is in progress in THIS thread
+            cur = self.inprog.get(threading.get_ident())
+            item = cur if (cur is not None and cur.waste is waste) else next((it for it in grp if it.log), grp[-1])
         item.toxic_cb += 1
         if item.toxic_cb > 1:
             self.problem("toxic-callback-repeated", "sensitive item %d reached the toxic callback %d times" % (item.vid, item.toxic_cb))
@@ -270,6 +585,17 @@ class Rig:
         return W(waste_type=self.WT[ti], content=content, source="h%d" % vid,
                  created_at=_real_datetime.fromtimestamp(self.clock.time()), priority=vid % 3)
 
+    def twin_of(self, o):
+        """a distinct Waste object that compares equal to `o` (same type, source, priority, created_at, equal content / metadata)"""
+        content = copy.copy(o.content) if isinstance(o.content, (dict, list, str)) else o.content
+        if isinstance(content, dict):
+            content = {k: (dict(v) if isinstance(v, dict) else v) for k, v in content.items()}
+        t = self.lmod.Waste(waste_type=o.waste_type, content=content, source=o.source, priority=o.priority,
+                            created_at=o.created_at, metadata=dict(o.metadata))
+        if not (t == o and t is not o):
+            self.problem("harness-twin-not-equal", "harness error: twin does not compare equal")
+        return t
+
     def _daemon(self):
         if self.daemon is None:
             from operon_ai.healing.autophagy_daemon import AutophagyDaemon
@@ -277,6 +603,7 @@ class Rig:
             self.daemon = AutophagyDaemon(histone_store=HistoneStore(silent=True), lysosome=self.lys,
                                           summarizer=lambda ctx: "summary of %d chars" % len(ctx),
                                           min_tokens_for_pruning=1, silent=True)
+            self.wrap_locks(extra=[self.daemon])
         return self.daemon
 
     def apply(self, op):
@@ -296,7 +623,12 @@ class Rig:
                 self.items.append(None)
             c["behav"] = op[-1]
         self.last_ctx = c
+        self._rescan()
         before = list(lys._queue) if (kind == "autophagy" and not self.threaded) else None
+        if kind == "digest" and op[1] and not self.threaded:
+            q0 = lys._queue
+            if len(q0) > op[1] and any(r == b for r in q0[op[1]:] for b in q0[:op[1]]):
+                self._bump("partial_digests_splitting_equal_wastes")      # the situation in which removal by value and by position differ
         now_v = self.clock.time()
         self.cur[me] = c
         self._bump("calls")
@@ -309,6 +641,19 @@ class Rig:
                 ret = lys.ingest_error(RuntimeError("operation failed vid=%d" % c["vid"]), source="h%d" % c["vid"], context={"vid": c["vid"]})
             elif kind == "ingest_sensitive":
                 ret = lys.ingest_sensitive("%s-%d-K" % (MARK, c["vid"]), source="h%d" % c["vid"])
+            elif kind == "ingest_error_rep":
+                # the same failure reported again (same message, source, context) within one clock tick
+                ret = lys.ingest_error(RuntimeError("operation failed (repeated)"), source="hrep", context={"shard": 1})
+            elif kind == "ingest_sensitive_rep":
+                ret = lys.ingest_sensitive("%s-REP-K" % MARK, source="hrep")
+            elif kind in ("ingest_twin", "ingest_same"):
+                with self._alloc:
+                    pool = list(self.wastes)
+                if not pool:
+                    ret = lys.ingest(self.make_waste(c["vid"], 1, op[2]))
+                else:
+                    o = pool[-1 - (op[1] % len(pool))]
+                    ret = lys.ingest(self.twin_of(o) if kind == "ingest_twin" else o)
             elif kind == "prune":
                 ctxt = ("useful line vid=%d\n" % c["vid"]) * 6
                 ret = self._daemon().check_and_prune(ctxt, max_tokens=50, force=True)
@@ -362,6 +707,10 @@ class Rig:
             paths = set(e[2][0] for e in digs)
             for p in paths:
                 self.reached.add(p)
+            if digs and not self.threaded:
+                left = self.lys._queue
+                if left and any(w == self.items[e[1]].waste for e in digs for w in left):
+                    self._bump("ingest_digests_splitting_equal_wastes")
             # a digester failure during the auto-digest must be reported: a WARNING+ record on the module logger
             # after the failure, or a result object with .errors returned to the caller
             last_auto_raise = max([i for i, e in enumerate(c["events"]) if e[0] == "dig" and e[2][0] == "auto" and e[2][1] == "raise"], default=None)
@@ -383,12 +732,22 @@ class Rig:
             if digs:
                 self.problem("autophagy-digests", "autophagy invoked digesters")
             if before is not None:
-                after = self.lys._queue
-                after_ids = set(id(w) for w in after)
-                removed = [w for w in before if id(w) not in after_ids]
+                after_n = {}
+                for w in self.lys._queue:
+                    after_n[id(w)] = after_n.get(id(w), 0) + 1
+                removed = []
+                for w in before:            # multiset difference before - after, by identity
+                    if after_n.get(id(w), 0) > 0:
+                        after_n[id(w)] -= 1
+                    else:
+                        removed.append(w)
                 for w in removed:
-                    item = self.by_obj.get(id(w))
+                    grp = self.by_obj.get(id(w))
+                    if not grp:
+                        continue
+                    item = next((it for it in grp if not it.log and not it.expired), None)
                     if item is None:
+                        self.problem("item-expired-and-present", "autophagy removed an occurrence of item %d although every ingestion of that object was already digested or expired" % grp[-1].vid)
                         continue
                     item.expired = True
                     self._bump("items_expired")
@@ -404,8 +763,9 @@ class Rig:
         """Conservation + counters + bound + bin + toxic callback, at a point where no call is in progress."""
         lys = self.lys
         self._bump("audits")
-        if self.lock.locked():
-            self.problem("lock-left-held", "the organelle's lock is still held although no call is in progress")
+        held = [l.name for l in self.locks if l.depth > 0]
+        if held:
+            self.problem("lock-left-held", "%s still held although no call is in progress" % ", ".join(held))
             return
         snap = list(lys._queue)
         status = lys.get_queue_status()
@@ -425,22 +785,45 @@ class Rig:
         for item in self.items:
             if item is None:
                 continue
-            q = inq.get(id(item.waste), 0)
+            grp = self.by_obj[id(item.waste)]
             p = len(item.log)
             n_ok += sum(1 for e in item.log if e[1] == "ok")
             n_raise += sum(1 for e in item.log if e[1] == "raise")
             x = 1 if item.expired else 0
-            if q > 1:
-                self.problem("item-duplicated-in-queue", "item %d (%s) is queued %d times" % (item.vid, item.tname, q))
-            if p > 1:
-                self.problem("item-processed-twice", "item %d (%s) was handed to a digester %d times: %s" % (item.vid, item.tname, p, item.log))
-            if q and p:
-                self.problem("item-queued-and-processed", "item %d (%s) was digested (%s) and is still queued" % (item.vid, item.tname, item.log))
-            if x and (q or p):
-                self.problem("item-expired-and-present", "item %d was removed by autophagy and is also %s" % (item.vid, "queued" if q else "digested"))
-            if q + p + x == 0:
-                unaccounted.append(item)
+            if len(grp) == 1:
+                q = inq.get(id(item.waste), 0)
+                if q > 1:
+                    self.problem("item-duplicated-in-queue", "item %d (%s) is queued %d times" % (item.vid, item.tname, q))
+                if p > 1:
+                    self.problem("item-processed-twice", "item %d (%s) was handed to a digester %d times: %s" % (item.vid, item.tname, p, item.log))
+                if q and p:
+                    self.problem("item-queued-and-processed", "item %d (%s) was digested (%s) and is still queued" % (item.vid, item.tname, item.log))
+                if x and (q or p):
+                    self.problem("item-expired-and-present", "item %d was removed by autophagy and is also %s" % (item.vid, "queued" if q else "digested"))
+                if q + p + x == 0:
+                    unaccounted.append(item)
+            elif item is grp[0]:
+                # one object ingested k times: its occurrences are indistinguishable, so the rule is applied by count
+                k = len(grp)
+                q = inq.get(id(item.waste), 0)
+                gp = sum(len(i.log) for i in grp)
+                gx = sum(1 for i in grp if i.expired)
+                self._bump("reingested_groups_judged")
+                vids = [i.vid for i in grp]
+                if q + gp + gx > k:
+                    if gp > k or any(len(i.log) > 1 for i in grp):
+                        self.problem("item-processed-twice", "one object ingested %d times (items %s) was handed to a digester %d times" % (k, vids, gp))
+                    elif q > k:
+                        self.problem("item-duplicated-in-queue", "one object ingested %d times (items %s) is queued %d times" % (k, vids, q))
+                    elif q and gp:
+                        self.problem("item-queued-and-processed", "one object ingested %d times (items %s): %d digester invocation(s), %d expired and still %d queued" % (k, vids, gp, gx, q))
+                    else:
+                        self.problem("item-expired-and-present", "one object ingested %d times (items %s): %d expired, %d digested, %d queued" % (k, vids, gx, gp, q))
+                elif q + gp + gx < k:
+                    free = [i for i in grp if not i.log and not i.expired]
+                    unaccounted.extend(free[:k - (q + gp + gx)])
             if item.sensitive:
+                q = inq.get(id(item.waste), 0)
                 self._bump("sensitive_items_judged")
                 if p >= 1 and item.toxic_cb == 0 and all(e[1] != "?" for e in item.log):
                     self.problem("toxic-callback-missing", "sensitive item %d was processed (%s) but never reached the toxic callback" % (item.vid, item.log))
